@@ -264,6 +264,7 @@ func checkC03(c *Ctx, r *Report) {
 	c03R4(c, r)
 	c03SuffixIndex(c, r, "C03.R1.suffix-index")
 	namesEscaped(c, r, "C03.R3.names-escaped", "the text form of the name is not the escaped form the parser and IsDomainName work on: text and wire forms of that field do not correspond")
+	c03NameBuffers(c, r, "C03.R1.name-buffers")
 }
 
 func c03R2(c *Ctx, r *Report) {
@@ -277,7 +278,7 @@ func c03R2(c *Ctx, r *Report) {
 		var problems []string
 		leading, double := false, false
 		dotFlag, escBlock := dotFlagPhi(fn)
-		idx := len(fn.Signature.Results().At(fn.Signature.Results().Len() - 1).Name()) * 0
+		idx := len(fn.Signature.Results().At(fn.Signature.Results().Len()-1).Name()) * 0
 		_ = idx
 		last := fn.Signature.Results().Len() - 1
 		for _, rp := range returnPoints(fn, last) {
